@@ -356,6 +356,8 @@ impl Gen {
             3 => self.rng.range(1900, 2300) as usize,
             _ => self.rng.range(5800, 6400) as usize,
         };
+        // very rarely an event of more than 64 KiB (u16-sized length fields, dozens of chunks)
+        let n = if self.p.size_w[3] > 0 && self.rng.chance(1, 500) { self.rng.range(65_400, 72_000) as usize } else { n };
         let seed = self.rng.next();
         (0..n).map(|i| (seed.wrapping_mul(i as u64 + 1) >> 13) as u8).collect()
     }
@@ -382,7 +384,12 @@ impl Gen {
                     _ => tags.push(vec!["D".to_string(), self.rng.pick(&self.dvals).clone()]),
                 }
             }
-            // the address: the FIRST d tag, always with a value
+            if self.rng.chance(1, 40) {
+                // the first d tag has NO value: the event has no address at all (it is neither
+                // displaced nor does it displace), whatever later d tags say
+                tags.push(vec!["d".to_string()]);
+            }
+            // the address: the FIRST d tag, (otherwise) always with a value
             let d = self.rng.pick(&self.dvals).clone();
             tags.push(vec!["d".to_string(), d]);
         }
@@ -1006,7 +1013,13 @@ impl Gen {
                         ops.push(Op::Query(q));
                     }
                 }
-                "reopen_drop" => ops.push(Op::Reopen(ReopenKind::Drop)),
+                "reopen_drop" => {
+                    if self.rng.chance(1, 4) {
+                        ops.push(Op::Sync);
+                    } else {
+                        ops.push(Op::Reopen(ReopenKind::Drop));
+                    }
+                }
                 "reopen_close" => ops.push(Op::Reopen(ReopenKind::Close)),
                 "reopen_copy" => ops.push(Op::Reopen(ReopenKind::Copy)),
                 "rebuild" => ops.push(Op::Rebuild),
